@@ -86,6 +86,10 @@ class Builder:
             return ops[0] + ops[1]
         if k == "Sub":
             return ops[0] - ops[1]
+        if k == "AddN":
+            return L.Add(ops)
+        if k == "ComposeN":
+            return L.Compose(ops)
         if k in ("ScaleL", "ScaleR"):
             c = complex(a[0][0], a[0][1])
             c = (int(c.real) if c.imag == 0 else c)
